@@ -724,7 +724,11 @@ def acos_asin(z, prec, rnd, n):
             Am1 = mpf_shift(mpf_add(c1, c2, wp), -1)
         # im = log(1 + Am1 + sqrt(Am1*(alpha+1)))
         im = mpf_mul(Am1, mpf_add(alpha, fone, wp), wp)
-        im = mpf_log(mpf_add(fone, mpf_add(Am1, mpf_sqrt(im, wp), wp), wp), wp)
+        im = mpf_add(Am1, mpf_sqrt(im, wp), wp)
+        # log(1 + im) without losing a tiny im to the rounding of 1 + im
+        mag = im[2] + im[3]
+        if im != fzero and mag >= -wp:
+            im = mpf_log(mpf_add(fone, im, wp + max(0, -mag)), wp)
     else:
         # im = log(alpha + sqrt(alpha*alpha - 1))
         im = mpf_sqrt(mpf_sub(mpf_mul(alpha, alpha, wp), fone, wp), wp)
